@@ -1135,6 +1135,12 @@ fn start_replication(
         "replicating to tcp client in the addr: {}",
         replicate_address
     );
+    #[cfg(nundb_verif)]
+    if crate::verif_hooks::link_mode() {
+        let _ = (&user, &pwd, dbs);
+        crate::verif_hooks::open_link(tcp_addr, replicate_address, is_primary, command_receiver);
+        return;
+    }
     let global_fut = async {
         let (mut client, _receiver) = Client::new_empty_and_receiver();
         client
